@@ -7,6 +7,7 @@ import OttoVerif.C05.Spec
 import OttoVerif.Base.ParseNumber
 import OttoVerif.C05.Obj
 import OttoVerif.C05.Ops2
+import OttoVerif.C06.Spec
 namespace OttoVerif.C05.Driver
 open OttoVerif.F64 OttoVerif.Proto OttoVerif.C05
 
@@ -185,8 +186,71 @@ def resOut (r : Ops2.Res Ops2.Vl) : String :=
   | .refError l => "throw:ReferenceError|" ++ lg l
   | .thrown v l => "throw:" ++ valOut v ++ "|" ++ lg l
 
+/-! ### operands of every INTERNAL kind (requests `knd`, `knda`)
+
+  `knd <op> <A> <B>`: `(A) op (B)`;  `knda <op> <A> <B>`: `var t = A; t op= B`.  A, B are PRODUCER tokens: the
+  harness writes an expression that makes the evaluator itself (or the Go bridge) yield a number Value of a given Go
+  kind; the model gets that kinded `Val`:
+    or:n `(n|0)` int32 · not:n `(~n)` int32 (−n−1) · ushr:n `(n>>>0)` uint32 · len:n `"aaa".length` int ·
+    idx:n `"abc…".indexOf(c)` int · cc:n `String.fromCharCode(n).charCodeAt(0)` uint16 · lit:n integer literal int64 ·
+    neg:n `-n` float64 · g<val> a Go value set into the runtime (any kind token of `val?`).
+  Reply token: `<number as f64 hex | b:0/1>;<typeof>;<String(r) hex>;<z+|z-|nz>;<Go type of Export()>`.
+  String(r): model = Value.string() by kind (C06.formatInt for integer kinds, C06.numToString for float64),
+  spec = §9.8.1 (C06.Spec.toStringNum) of the number value. -/
+def prod? (t : String) : Option Val :=
+  match t.splitOn ":" with
+  | ["or", n] => (int? n).map (.int .i32)
+  | ["not", n] => (int? n).map fun i => .int .i32 (-i - 1)
+  | ["ushr", n] => (int? n).map (.int .u32)
+  | ["len", n] => (int? n).map (.int .int)
+  | ["idx", n] => (int? n).map (.int .int)
+  | ["cc", n] => (int? n).map (.int .u16)
+  | ["lit", n] => (int? n).map (.int .i64)
+  | ["neg", n] => (int? n).map fun i => .f64 (neg (ofInt i))
+  | _ => match t.toList with
+    | 'g' :: r => val? (String.ofList r)
+    | _ => none
+
+def goType : NK → String
+  | .i8 => "int8" | .i16 => "int16" | .i32 => "int32" | .i64 => "int64" | .int => "int"
+  | .u8 => "uint8" | .u16 => "uint16" | .u32 => "uint32" | .u64 => "uint64" | .uint => "uint"
+
+def zeroTok (x : FV) : String := if isZero x then (if signBit x then "z-" else "z+") else "nz"
+
+/-- what the harness observes of a result as otto holds it -/
+def obsModel (v : Val) : String :=
+  match v with
+  | .int k i => "f:" ++ f64Out (ofInt i) ++ ";number;" ++ bytesOut (OttoVerif.C06.formatInt i 10) ++ ";" ++
+      (if i = 0 then "z+" else "nz") ++ ";" ++ goType k
+  | .f64 x => "f:" ++ f64Out x ++ ";number;" ++ bytesOut (OttoVerif.C06.numToString OttoVerif.C06.Spec.exactLib x) ++ ";" ++
+      zeroTok x ++ ";float64"
+  | .bool b => (if b then "b:1;boolean;74727565" else "b:0;boolean;66616c7365") ++ ";nz;bool"
+  | _ => "?"
+
+/-- what ES5 says of a result: a Number is the double and nothing else; the Go type reported is the one otto
+    documents for the operator (float64 for arithmetic, int32/uint32 for bitwise/shift results) -/
+def obsSpec (v : Val) : String :=
+  match v with
+  | .int k i => "f:" ++ f64Out (ofInt i) ++ ";number;" ++ bytesOut (OttoVerif.C06.Spec.toStringNum (ofInt i)) ++ ";" ++
+      zeroTok (ofInt i) ++ ";" ++ goType k
+  | .f64 x => "f:" ++ f64Out x ++ ";number;" ++ bytesOut (OttoVerif.C06.Spec.toStringNum x) ++ ";" ++ zeroTok x ++ ";float64"
+  | .bool b => (if b then "b:1;boolean;74727565" else "b:0;boolean;66616c7365") ++ ";nz;bool"
+  | _ => "?"
+
+def handleKnd (o a b : String) : String :=
+  match prod? a, prod? b with
+  | some x, some y =>
+    match bin? o with
+    | some bo => reply (obsModel (binNum env bo x y)) (obsSpec (Spec.binNum env bo x y)) "-"
+    | none => match cmp? o with
+      | some c => reply (obsModel (.bool (calculateComparison env c x y))) (obsSpec (.bool (Spec.compare env Spec.unitLt c x y))) "-"
+      | none => "bad-op"
+  | _, _ => "bad-op"
+
 def handle2 (ws : List String) : String :=
   match ws with
+  | ["knd", o, a, b] => handleKnd o a b
+  | ["knda", o, a, b] => handleKnd o a b
   | "ex" :: r =>
     match ex? r with
     | some (e, []) => reply (resOut (Ops2.run env e)) (resOut (Ops2.Spec.run env e)) "-"
